@@ -909,6 +909,8 @@ def rule_bpreg(ctx, rep):
 
 META["explanation"] += " " + "Also (rounds 11-12): every path of read_lock stores / of read_unlock decrements the reader word; the put-back of quiescent readers is a splice; the leader touches a waiter's node only until it hands it back; plain list.h traversal macros (witness/list.c)."
 
+META["explanation"] += " " + 'Also (round 13): the fork child spares exactly its own bp reader slot when it prunes the registry (both the `==` and the pthread_equal() forms, polarity checked).'
+
 RULES = [
     ("C01.skel", rule_skel),
     ("C01.scan", rule_scan),
